@@ -136,7 +136,7 @@ func (e *EventSubscription) Enqueue(f func()) {
 	count := len(e.queue)
 	locks := e.locks
 	e.queue = append(e.queue, f)
-	verifNote("qEnq", "name", e.ResourceName, "count", count, "locked", locks != nil, "sent", locks == nil && count == 0)
+	verifNote("qEnq", "name", e.ResourceName, "ep", e, "count", count, "locked", locks != nil, "sent", locks == nil && count == 0)
 	e.mu.Unlock()
 
 	// If the queue is empty, there are no worker currently
@@ -154,7 +154,7 @@ func (e *EventSubscription) enqueueUnlock(f func()) {
 	e.mu.Lock()
 	count := len(e.locks)
 	e.locks = append(e.locks, f)
-	verifNote("qUnl", "name", e.ResourceName, "count", count)
+	verifNote("qUnl", "name", e.ResourceName, "ep", e, "count", count)
 	e.mu.Unlock()
 
 	if count == 0 {
@@ -165,7 +165,7 @@ func (e *EventSubscription) enqueueUnlock(f func()) {
 // lockEvents will queue any callback that is passed to Enqueue until
 // enqueueUnlock has been called the same number of time as locks.
 func (e *EventSubscription) lockEvents(locks int) {
-	verifNote("qLock", "name", e.ResourceName, "n", locks)
+	verifNote("qLock", "name", e.ResourceName, "ep", e, "n", locks)
 	if locks > 0 {
 		e.locks = make([]func(), 0, locks)
 	}
@@ -176,7 +176,7 @@ func (e *EventSubscription) processQueue() {
 	verifGate("cache", e.ResourceName)
 	e.mu.Lock()
 	defer e.mu.Unlock()
-	verifNote("qStart", "name", e.ResourceName, "locked", e.locks != nil, "nlk", len(e.locks), "qlen", len(e.queue))
+	verifNote("qStart", "name", e.ResourceName, "ep", e, "locked", e.locks != nil, "nlk", len(e.locks), "qlen", len(e.queue))
 	var f func()
 	idx := 0
 
@@ -188,15 +188,15 @@ func (e *EventSubscription) processQueue() {
 		}
 
 		e.locks = e.locks[idx:]
-		verifNote("qAfterUnl", "name", e.ResourceName, "ran", idx, "cap", cap(e.locks))
+		verifNote("qAfterUnl", "name", e.ResourceName, "ep", e, "ran", idx, "cap", cap(e.locks))
 
 		if cap(e.locks) > 0 {
-			verifNote("qIdle", "name", e.ResourceName)
+			verifNote("qIdle", "name", e.ResourceName, "ep", e)
 			return
 		}
 		e.locks = nil
 		if len(e.queue) == 0 {
-			verifNote("qIdle", "name", e.ResourceName)
+			verifNote("qIdle", "name", e.ResourceName, "ep", e)
 			return
 		}
 
@@ -210,12 +210,12 @@ func (e *EventSubscription) processQueue() {
 		if e.locks != nil {
 			copy(e.queue, e.queue[idx:])
 			e.queue = e.queue[:len(e.queue)-idx]
-			verifNote("qEnd", "name", e.ResourceName, "ran", idx, "relocked", true, "qlen", len(e.queue))
+			verifNote("qEnd", "name", e.ResourceName, "ep", e, "ran", idx, "relocked", true, "qlen", len(e.queue))
 			return
 		}
 	}
 	e.queue = e.queue[0:0]
-	verifNote("qEnd", "name", e.ResourceName, "ran", idx, "relocked", false, "qlen", 0)
+	verifNote("qEnd", "name", e.ResourceName, "ep", e, "ran", idx, "relocked", false, "qlen", 0)
 }
 
 // addCount increments the subscription count.
